@@ -359,10 +359,16 @@ pub fn hash<K: SymK>() {
         i += 1;
     }
     assert!(ha.n == hb.n && ha.n <= 64 && ha.n > 0);
-    let j = any_index(64);
-    if same {
-        assert!(ha.buf[j] == hb.buf[j]);
+    // "hash equal exactly when they spell the same string": the byte stream fed to the hasher is
+    // the same for equal strings AND differs for different strings (otherwise no hasher, seed or
+    // perfect-hash level could ever separate the two keys)
+    let mut differ = false;
+    let mut j = 0;
+    while j < 64 {
+        differ |= ha.buf[j] != hb.buf[j];
+        j += 1;
     }
+    assert!(same == !differ);
     kani::cover!(same);
     kani::cover!(!same);
 }
